@@ -1,2 +1,70 @@
-(* Regression_tdigestcodec.v - statements are added below as the proofs land *)
-From DS Require Import TDigestCodecDefs.
+(* Regression_tdigestcodec.v — the reference-format readers of tdigest AS FOUND (before fixes/11_tdigest_compat_stream_state.patch and
+   fixes/11_tdigest_compat_casts.patch), kept as variant definitions with `_refuted` theorems (TDigestCodecDefs.v models the repaired
+   readers).
+   1. deserialize_compat(std::istream&) never tested the stream state: a read past the end of the stream left the destination
+      indeterminate and the reader went on.  Modelled by a reader that pads the missing bytes with an arbitrary byte g.
+   2. k and the centroid weights were converted with static_cast from double / float: undefined behaviour for values the integer
+      type cannot represent.  Modelled by what x86-64 gcc does for static_cast<uint16_t>(double): cvttsd2si to int32 (the
+      "integer indefinite" 0x80000000 when out of range or NaN), then truncation to 16 bits. *)
+From Coq Require Import NArith List Bool Arith.
+From DS Require Import Word TDigestCodecDefs.
+Import ListNotations.
+Local Open Scope N_scope.
+
+(* ---- 1. stream reader without stream-state tests ---- *)
+Definition take_pad (g : N) (n : nat) (l : list N) : list N * list N := (firstn n (l ++ repeat g n), skipn n l).
+Definition rd_be_pad (g : N) (n : nat) (l : list N) : N * list N :=
+  let '(a, r) := take_pad g n l in (le_bytes_to_N (rev a), r).
+
+Fixpoint rd_compat_f_old (g : N) (n : nat) (l : list N) : option (list (N * N) * list N) :=
+  match n with
+  | O => Some ([], l)
+  | S n' => let '(wf, l1) := rd_be_pad g 4 l in let '(mf, l2) := rd_be_pad g 4 l1 in
+            do w <- f64_to_N two64 (f32_to_f64 wf);
+            do (t, l3) <- rd_compat_f_old g n' l2; Some ((f32_to_f64 mf, w) :: t, l3)
+  end.
+
+(* COMPAT_FLOAT through the stream reader as found; [c] = the bytes after the three zero bytes *)
+Definition dec_compat_float_old_stream (g : N) (c : list N) : option (tdc * list N) :=
+  let '(t, l0) := rd_be_pad g 1 c in
+  if negb (t =? 2) then None else
+  let '(mn, l1) := rd_be_pad g 8 l0 in let '(mx, l2) := rd_be_pad g 8 l1 in let '(kf, l3) := rd_be_pad g 4 l2 in
+  let '(unused, l4) := rd_be_pad g 4 l3 in let '(nc, l5) := rd_be_pad g 2 l4 in
+  do (cs, l6) <- rd_compat_f_old g (N.to_nat nc) l5;
+  do k <- f64_to_N two16 (f32_to_f64 kf);
+  do s <- mk k false mn mx cs []; Some (s, l6).
+
+(* the reference image of the correspondence runs: min 1.0, max 3.0, k 100, two centroids; 46 bytes *)
+Definition ref_float_image : list N :=
+  [0;0;0;2; 63;240;0;0;0;0;0;0; 64;8;0;0;0;0;0;0; 66;200;0;0; 7;7;7;7; 0;2; 63;128;0;0; 63;128;0;0; 64;0;0;0; 64;32;0;0].
+
+Theorem compat_stream_prefix_accepted_refuted :
+  exists (g : N) (n : nat) s r, (n < length ref_float_image)%nat /\
+    dec (firstn n ref_float_image) = None /\                               (* the repaired readers reject the prefix *)
+    dec ref_float_image <> None /\
+    dec_compat_float_old_stream g (skipn 3 (firstn n ref_float_image)) = Some (s, r) /\
+    length (c_cents s) = 2%nat.                                            (* the old one built a digest from bytes it never read *)
+Proof.
+  exists 0, 30%nat. eexists. eexists. split; [apply Nat.ltb_lt; reflexivity|]. split; [vm_compute; reflexivity|].
+  split; [vm_compute; discriminate|]. split; [vm_compute; reflexivity|]. reflexivity.
+Qed.
+
+(* ---- 2. static_cast<uint16_t>(double) on x86-64 ---- *)
+Definition cast_u16_x86 (b : N) : N :=
+  let e := N.land (N.shiftr b 52) 2047 in
+  let m := N.land b 4503599627370495 in
+  let mag := if e <? 1023 then 0
+             else let sig := m + 4503599627370496 in
+                  if 1075 <=? e then N.shiftl sig (e - 1075) else N.shiftr sig (1075 - e) in
+  let i32 := if (e =? 2047) || (2147483648 <=? mag) then 2147483648            (* integer indefinite *)
+             else if N.testbit b 63 then (4294967296 - mag) mod 4294967296 else mag in
+  N.land i32 65535.
+
+Theorem compat_cast_refuted :
+  exists kd, f64_to_N two16 kd = None /\       (* -5.0 is not a uint16: the repaired readers reject the image (C11_td_compat_bad_k) *)
+             cast_u16_x86 kd = 65531 /\         (* as found: k = 65531, which passes the constructor's k >= 10 *)
+             cast_u16_x86 4636737291354636288 = 100.   (* sanity: 100.0 -> 100 *)
+Proof. exists 13840687554816434176. vm_compute. repeat split; reflexivity. Qed.
+
+Print Assumptions compat_stream_prefix_accepted_refuted.
+Print Assumptions compat_cast_refuted.
